@@ -16,6 +16,8 @@ pub enum Initial {
     Empty,
     /// an existing one-key keyring written by the reference
     OneKey { trailing_newline: bool, comments: bool, crlf: bool },
+    /// an existing keyring larger than any I/O buffer: one key followed by a comment block of this many bytes
+    Big { comment_bytes: usize },
 }
 
 #[derive(Serialize, Deserialize, Clone, Debug)]
@@ -24,6 +26,9 @@ pub struct Gen {
     pub password: String,
     /// a name the tool must refuse (empty, too long, with a tab): the file must stay as it is
     pub invalid: bool,
+    /// syscall fault on the keyring file during this generation: (k-th write, errno, per-write cap)
+    #[serde(default)]
+    pub fault: Option<(u32, i32, u32)>,
 }
 
 #[derive(Serialize, Deserialize, Clone, Debug)]
@@ -38,7 +43,9 @@ pub struct Scn {
 pub struct B3;
 
 fn gen_cli_password(rng: &mut Rng) -> String {
-    match rng.below(7) {
+    match rng.below(9) {
+        7 => "ends with newline\n".into(),
+        8 => "tab\tand crlf\r\n".into(),
         0 => String::new(),
         1 => "a".into(),
         2 => "x".repeat(64),
@@ -87,13 +94,20 @@ impl Family for B3 {
             2 => Initial::OneKey { trailing_newline: true, comments: false, crlf: false },
             3 => Initial::OneKey { trailing_newline: false, comments: false, crlf: false },
             4 => Initial::OneKey { trailing_newline: true, comments: true, crlf: false },
-            _ => Initial::OneKey { trailing_newline: rng.chance(1, 2), comments: rng.chance(1, 2), crlf: rng.chance(1, 3) },
+            _ => {
+                if rng.chance(1, 3) {
+                    Initial::Big { comment_bytes: *rng.pick(&[7000usize, 8192, 9000, 20000, 70000]) }
+                } else {
+                    Initial::OneKey { trailing_newline: rng.chance(1, 2), comments: rng.chance(1, 2), crlf: rng.chance(1, 3) }
+                }
+            }
         };
         let n = rng.range(1, 5) as usize;
         let mut gens = vec![];
         for k in 0..n {
             let (name, invalid) = gen_cli_name(rng, k);
-            gens.push(Gen { name, password: gen_cli_password(rng), invalid });
+            let fault = if !invalid && rng.chance(1, 8) { Some((rng.below(3) as u32, *rng.pick(&[28i32, 5, 27]), *rng.pick(&[0u32, 1, 10, 100]))) } else { None };
+            gens.push(Gen { name, password: gen_cli_password(rng), invalid, fault });
         }
         Scn { initial, gens, seed: rng.next_u64(), use_keys: rng.chance(1, 2), os_rng: rng.chance(1, 4) }
     }
@@ -127,15 +141,50 @@ impl Family for B3 {
                 sb.write(f, t.as_bytes());
                 known.push((init_name.into(), init_pw.into()));
             }
+            Initial::Big { comment_bytes } => {
+                let mut t = keyring_text(&[KeySpec { name: init_name.into(), sk: init_sk, password: Some(init_pw.into()), salt: r.arr32() }]);
+                t.push_str("\n# ");
+                while t.len() < *comment_bytes {
+                    t.push_str("a long comment line in the keyring that pushes its size past the I/O buffer\n# ");
+                }
+                t.push('\n');
+                sb.write(f, t.as_bytes());
+                known.push((init_name.into(), init_pw.into()));
+            }
         }
         let mut salts: Vec<Vec<u8>> = vec![];
         let mut sks: Vec<[u8; 32]> = vec![];
+        let mut torn = false;
         for (k, g) in s.gens.iter().enumerate() {
             let before = sb.read(f);
             let mut inv = Invocation::new(&["key", "generate", "-o", f, "--env-pass"]).env("KESTREL_PASSWORD", &g.password);
             inv.stdin = Stdin::Pipe(format!("{}\n", g.name).into_bytes());
             inv.entropy_seed = if s.os_rng { None } else { Some(s.seed ^ (k as u64 + 1) * 0x9E37) };
+            if let Some((kth, errno, cap)) = g.fault {
+                let mut plan = format!("f={}:w:{}:E{}", f, kth, errno);
+                if cap > 0 {
+                    plan.push_str(&format!(";f={}:w:*:C{}", f, cap));
+                }
+                inv.fault_plan = Some(plan);
+            }
             let fin = run(&sb, &inv);
+            let fault_fired = String::from_utf8_lossy(&fin.shim_log).contains("inject errno=");
+            if fault_fired {
+                // a generation that hits ENOSPC/EIO/EFBIG on the keyring may fail, but it must not
+                // destroy what the keyring already held
+                out.count("fault.syscall.keyring_write_error", 1);
+                let now = sb.read(f).unwrap_or_default();
+                let was = before.clone().unwrap_or_default();
+                if !now.starts_with(&was) {
+                    out.violations.push(viol("C14", "write_fault_destroyed_existing_keys", format!("step {} (name {:?}): a write error while adding a key left {} bytes where {} bytes of keyring were (earlier contents are not a prefix any more)", k, g.name, now.len(), was.len())));
+                }
+                if fin.status == Status::Exit(0) {
+                    out.violations.push(viol("C14", "write_fault_swallowed", format!("step {}: the write error was injected but key generation exited 0", k)));
+                }
+                // the tail may now be a torn [Key] section: stop the history here
+                torn = true;
+                break;
+            }
             if !s.os_rng {
                 th = th.rotate_left(11) ^ fin.digest();
             }
@@ -226,7 +275,7 @@ impl Family for B3 {
                 }
                 let _ = rf::MAGIC_KEY;
             }
-        } else if !known.is_empty() {
+        } else if !known.is_empty() && !torn {
             out.violations.push(viol("C14", "file_no_longer_parses", "final keyring does not parse".into()));
         }
         out.count("probe.generations", s.gens.len() as u64);
